@@ -693,7 +693,19 @@ impl Index {
 
           match err.downcast_ref() {
             Some(&reorg::Error::Recoverable { height, depth }) => {
+              let before = self.block_count()?;
+
               Reorg::handle_reorg(self, height, depth)?;
+
+              // if rolling back to the oldest savepoint made no progress, the
+              // savepoint itself contains blocks of the abandoned chain and
+              // retrying would loop forever
+              if self.block_count()? >= before {
+                self
+                  .unrecoverably_reorged
+                  .store(true, atomic::Ordering::Relaxed);
+                return Err(anyhow!(reorg::Error::Unrecoverable));
+              }
             }
             Some(&reorg::Error::Unrecoverable) => {
               self
